@@ -1168,6 +1168,92 @@ func Std__(m *mu__, args []string, b []byte, t time.Time, d time.Duration) (res 
 	return &n, nil
 }
 `},
+	{Name: "std_checked_calls", Solo: true, Imports: []string{"bytes", "context", "encoding/binary", "encoding/json", "errors", "net/url", "os", "os/signal", "regexp", "sort", "strconv", "strings", "sync/atomic", "time"},
+		Targets: []string{"std:checked-calls-defer-go"}, Src: `
+type key__ string
+
+var cnt__ struct {
+	a int32
+	b int64
+}
+
+// Calls__ calls functions that have argument rules (valid and invalid arguments) as statements, deferred, as
+// goroutines, through function values and with spread arguments.
+func Calls__(xs []string, buf *bytes.Buffer, ctx context.Context, ch chan os.Signal, err error) {
+	_ = strings.NewReplacer("a")
+	defer strings.NewReplacer("a")
+	go strings.NewReplacer("a", "b", "c")
+	defer strings.NewReplacer(xs...)
+	f := strings.NewReplacer
+	f("x")
+	_ = strings.NewReplacer(xs[:3]...)
+	defer func() { _ = strings.NewReplacer("q") }()
+
+	_ = regexp.MustCompile("(")
+	defer regexp.MustCompile("[")
+	go regexp.Compile("(a")
+	_, _ = regexp.Compile("a(b")
+	defer regexp.MatchString("a(", "x")
+
+	_, _ = time.Parse("2006-13-45", "x")
+	defer time.Parse("1-2-3", "x")
+	go time.Parse("Foo", "x")
+
+	_, _ = strconv.ParseInt("1", 99, 64)
+	defer strconv.ParseInt("1", 10, 128)
+	go strconv.FormatInt(1, 99)
+	_, _ = strconv.ParseFloat("1", 16)
+	defer strconv.ParseUint("1", 1, 7)
+
+	_ = strings.Replace("a", "b", "c", 0)
+	defer strings.Replace("a", "b", "c", 0)
+	go strings.Trim("a", "aa")
+	_ = strings.TrimLeft("a", "abca")
+	defer bytes.Replace(nil, nil, nil, 0)
+
+	sort.Slice([3]int{}, func(i, j int) bool { return false })
+	defer sort.Slice([3]int{}, func(i, j int) bool { return false })
+	go sort.SliceStable(1, func(i, j int) bool { return false })
+
+	_ = context.WithValue(ctx, "k", 1)
+	defer context.WithValue(ctx, "k", 1)
+	go context.WithValue(ctx, key__("k"), 1)
+
+	_ = errors.Is(os.ErrNotExist, err)
+	defer errors.Is(os.ErrNotExist, err)
+	go errors.Is(os.ErrNotExist, err)
+
+	atomic.AddInt64(&cnt__.b, 1)
+	defer atomic.AddInt64(&cnt__.b, 1)
+	go atomic.LoadInt64(&cnt__.b)
+
+	_ = binary.Write(buf, binary.LittleEndian, 1)
+	defer binary.Write(buf, binary.LittleEndian, xs)
+	go binary.Write(buf, binary.LittleEndian, struct{ a int }{})
+
+	_, _ = url.Parse(":")
+	defer url.Parse("%gh")
+	go url.Parse("http://a b")
+
+	signal.Notify(ch, os.Kill)
+	defer signal.Notify(make(chan os.Signal), os.Interrupt)
+	go signal.Ignore(os.Kill)
+
+	var v struct{ X int }
+	_ = json.Unmarshal(nil, v)
+	defer json.Unmarshal(nil, v)
+	go json.Unmarshal(nil, &v)
+	_, _ = json.Marshal(make(chan int))
+	defer json.Marshal(func() {})
+
+	t := time.NewTimer(time.Second)
+	defer t.Reset(time.Second)
+	go t.Stop()
+	defer buf.WriteString("x")
+	defer time.Sleep(1)
+	go time.Sleep(time.Duration(len(xs)))
+}
+`},
 }
 
 // directed programs for the comparison-operator switches of nilness: one per operator, the right operand being the
